@@ -30,7 +30,10 @@ type c03Case struct {
 	ClusterParent bool
 	Declared      []string
 	GenSel        bool
-	Slots         []c03Slot
+	// NegSel: the parent's selector consists of a negative requirement only (tier NotIn [canary]); what it
+	// selects are objects WITHOUT labels, what it rejects carries tier=canary
+	NegSel bool
+	Slots  []c03Slot
 	// OtherStopped: a second controller on the same parent and child resources (it shares every informer with
 	// this one) was started and stopped again before the cluster got its contents
 	OtherStopped bool
@@ -92,13 +95,30 @@ func c03Run(c c03Case) []mc.Finding {
 	if c.Mode == 2 {
 		kit.Deleting(kit.Finalizers(parent, "metacontroller.io/compositecontroller-cc"))
 	}
-	if !c.GenSel {
+	if c.NegSel {
+		kit.Field(parent, kit.M{"matchExpressions": kit.L{kit.M{"key": "tier", "operator": "NotIn", "values": kit.L{"canary"}}}}, "spec", "selector")
+	} else if !c.GenSel {
 		kit.Field(parent, kit.M{"matchLabels": kit.M{"app": "x"}}, "spec", "selector")
 	}
 	w.Sim.Seed(parent)
 	matchK, matchV, noV := "app", "x", "y"
 	if c.GenSel {
 		matchK, matchV, noV = "controller-uid", "puid", "other"
+	}
+	if c.NegSel {
+		matchK, matchV, noV = "", "", "canary"
+	}
+	yes := func(o kit.M) kit.M {
+		if c.NegSel {
+			return o // no labels at all
+		}
+		return kit.Labels(o, matchK, matchV)
+	}
+	no := func(o kit.M) kit.M {
+		if c.NegSel {
+			return kit.Labels(o, "tier", noV)
+		}
+		return kit.Labels(o, matchK, noV)
 	}
 	// populate slots
 	var afterDeliver []func()
@@ -117,25 +137,25 @@ func c03Run(c c03Case) []mc.Finding {
 		ours := kit.OwnerRef(pk, "p", "puid", true)
 		switch s.Role {
 		case "owned":
-			kit.Labels(kit.Owners(o, ours), matchK, matchV)
+			yes(kit.Owners(o, ours))
 		case "owned-nomatch":
-			kit.Labels(kit.Owners(o, ours), matchK, noV)
+			no(kit.Owners(o, ours))
 		case "orphan-match":
-			kit.Labels(o, matchK, matchV)
+			yes(o)
 		case "orphan-nomatch":
-			kit.Labels(o, matchK, noV)
+			no(o)
 		case "foreign-owned":
-			kit.Labels(kit.Owners(o, kit.OwnerRef(pk, "q", "quid", true)), matchK, matchV)
+			yes(kit.Owners(o, kit.OwnerRef(pk, "q", "quid", true)))
 		case "owned+extra-owner":
-			kit.Labels(kit.Owners(o, kit.OwnerRef(kit.Other, "x", "xuid", false), ours), matchK, matchV)
+			yes(kit.Owners(o, kit.OwnerRef(kit.Other, "x", "xuid", false), ours))
 		case "owned-deleting":
-			kit.Deleting(kit.Finalizers(kit.Labels(kit.Owners(o, ours), matchK, matchV), "ex.io/hold"))
+			kit.Deleting(kit.Finalizers(yes(kit.Owners(o, ours)), "ex.io/hold"))
 		case "orphan-deleting":
-			kit.Deleting(kit.Finalizers(kit.Labels(o, matchK, matchV), "ex.io/hold"))
+			kit.Deleting(kit.Finalizers(yes(o), "ex.io/hold"))
 		case "orphan-adopted-elsewhere":
 			// a matching orphan as far as the cache knows; another parent has adopted it in the meantime, so the
 			// adoption is refused by the API server (one controller reference only)
-			kit.Labels(o, matchK, matchV)
+			yes(o)
 			kk, nsn, nm := k, ns, name
 			afterDeliver = append(afterDeliver, func() {
 				w.Sim.Edit(kk, nsn, nm, func(x map[string]interface{}) { kit.Owners(x, kit.OwnerRef(pk, "q", "quid", true)) })
@@ -177,7 +197,7 @@ func c03Run(c c03Case) []mc.Finding {
 		if c.ClusterParent && zk.Namespaced {
 			z = kit.Obj(zk, "n2", "z")
 		}
-		if !c.GenSel {
+		if !c.GenSel && !c.NegSel {
 			kit.Labels(z, "app", "x")
 		}
 		// ... and a second one that already carries what the controller would otherwise add: the generated
@@ -327,12 +347,12 @@ func TestVerifC03(t *testing.T) {
 	for ci, cf := range cfgs {
 		kinds := append(append([]string{}, cf.declared...), "others")
 		perSlot := len(c03Roles) * 2 * len(kinds)
-		dims := []int{3, 2}
+		dims := []int{3, 3}
 		for i := 0; i < nslots; i++ {
 			dims = append(dims, perSlot)
 		}
 		mc.Product(r, dims, func(idx int, d []int) {
-			c := c03Case{Mode: d[0], ClusterParent: cf.cluster, Declared: cf.declared, GenSel: d[1] == 1}
+			c := c03Case{Mode: d[0], ClusterParent: cf.cluster, Declared: cf.declared, GenSel: d[1] == 1, NegSel: d[1] == 2}
 			nontrivial := 0
 			for i := 0; i < nslots; i++ {
 				x := d[2+i]
